@@ -52,5 +52,5 @@ MANIFEST = {
     "engine": "sched",
     "technique": "property-based testing / fault injection with controlled schedules: generated DAGs, failing and deactivated nodes, every completion order for small cases; watchdog with structural hang witness",
     "level_text": "Fault enumeration + exploration: for each generated DAG the failing nodes (0-2) and the completion order are drawn (or the order tree enumerated); termination is decided as 'the call returned or raised within a bounded number of scheduler steps', hangs are reported only with a structural witness (scheduler inside tawazi, nothing it could wait for).",
-    "level_note": "Bounded liveness, not liveness. Trusted: watchdog (vlib/sched.py) and the wait interposers.",
+    "level_note": "Thorough tier additionally enumerates a complete small scope (every DAG on 4 ordered nodes x the property's own dimension - priorities / sequential subsets / failing node - with the whole completion-order tree of each). Bounded liveness, not liveness. Trusted: watchdog (vlib/sched.py) and the wait interposers.",
 }
